@@ -374,7 +374,57 @@ func (run *e3Run) recordFinalization(n *e3Node, inc int, h uint64, round uint32,
 // anything else (a precommit taken from the vote summary, an answer of round r
 // signed for round r+1, a vote the strategy was never asked for) makes the node
 // not lock-respecting from the inside.
+// auditProposal is the second premise monitor: a proposed header that a correct node really
+// signed as proposer must name the validator sets the application returned for its height and
+// the next one (in this harness: w.valSet). A correct node proposing anything else has lost
+// track of the chain's validator sets, and the agreement argument no longer covers it.
+func (run *e3Run) auditProposal(m *e3Msg) {
+	ph := m.ph
+	h := ph.Header.Height
+	if h == 0 || h > run.cfg.Target+8 || ph.ProposerPubKey == nil {
+		return
+	}
+	var node *e3Node
+	for _, n := range run.nodes {
+		if n != nil && ph.ProposerPubKey.Equal(n.pub) {
+			node = n
+		}
+	}
+	if node == nil {
+		return // Byzantine or unknown proposer
+	}
+	ck := fmt.Sprintf("ph|%x|%x", ph.Header.Hash, ph.Signature)
+	run.mu.Lock()
+	seen := run.auditSeen[ck]
+	run.auditSeen[ck] = true
+	run.mu.Unlock()
+	if seen {
+		return
+	}
+	content, err := tmconsensus.ProposalSignBytes(ph.Header, ph.Round, ph.Annotations, e3SigScheme)
+	if err != nil || !ed25519.Verify(ed25519.PublicKey(node.pub.PubKeyBytes()), content, ph.Signature) {
+		return // not really signed by that node
+	}
+	run.count("audit.correct-node-proposals-verified", 1)
+	for _, c := range []struct {
+		which string
+		got   tmconsensus.ValidatorSet
+		want  tmconsensus.ValidatorSet
+	}{{"validator set", ph.Header.ValidatorSet, run.w.valSet(h)}, {"next validator set", ph.Header.NextValidatorSet, run.w.valSet(h + 1)}} {
+		if !c.got.Equal(c.want) {
+			run.violateAsync("C03:correct-node-proposed-validator-sets-the-application-did-not-return",
+				fmt.Sprintf("node %d proposed %x at %d/%d whose %s (pub key hash %x, power hash %x) is not the one the application returned for that height (%x, %x)",
+					node.idx, short(string(ph.Header.Hash)), h, ph.Round, c.which, short(string(c.got.PubKeyHash)), short(string(c.got.VotePowerHash)), short(string(c.want.PubKeyHash)), short(string(c.want.VotePowerHash))),
+				map[string]any{"node": node.idx, "height": h, "round": ph.Round, "which": c.which})
+		}
+	}
+}
+
 func (run *e3Run) auditVotes(m *e3Msg) {
+	if run.cfg.Mode == "C03" && m.kind == e3KindPH {
+		run.auditProposal(m)
+		return
+	}
 	if run.cfg.Mode != "C03" || m.kind == e3KindPH {
 		return
 	}
@@ -1873,6 +1923,15 @@ func (run *e3Run) flushViolations() {
 }
 
 func (run *e3Run) violate(key, what string, detail any) {
+	if run.r.Prop == "C07" {
+		// C07's "engine" sub-run: the same networks, judged only by the monitor of the
+		// validator sets correct nodes propose; what the C03 oracles see is tallied
+		if !strings.HasPrefix(key, "C03:correct-node-proposed-validator-sets") {
+			run.count("other_property_observation."+key, 1)
+			return
+		}
+		key = "C07:" + strings.TrimPrefix(key, "C03:")
+	}
 	run.violations++
 	run.mu.Lock()
 	fin := append([]e3FinRec(nil), run.fin...)
